@@ -81,9 +81,12 @@ def one_mutant(m, suite):
 
 def one_seeded(d, suite):
     meta = json.load(open(os.path.join(d, "meta.json")))
+    if meta.get("superseded"):
+        # a later fix: commit made this change harmless on the current tree; kept for the record only
+        return {"id": os.path.basename(d), "property": meta["property"], "status": "superseded", "superseded": meta["superseded"]}
     tree = make_copy("st_seeded_")
     try:
-        p = subprocess.run(["patch", "-p1", "-d", tree, "-i", os.path.join(d, "patch.diff")], capture_output=True, text=True)
+        p = subprocess.run(["patch", "-p1", "-F0", "-d", tree, "-i", os.path.join(d, "patch.diff")], capture_output=True, text=True)
         if p.returncode != 0:
             return {"id": os.path.basename(d), "status": "patch_failed", "detail": p.stdout[-300:] + p.stderr[-300:]}
         out = {"id": os.path.basename(d), "property": meta["property"], "checks": {}}
